@@ -245,7 +245,7 @@ def boot_image_obj(c, signature_ok=True):
     entry = c.obj('pycdlib.eltorito.EltoritoEntry', _initialized=True, sector_count=4, inode=ino)
     cat = c.obj('pycdlib.eltorito.EltoritoBootCatalog', _initialized=True, initial_entry=entry)
     return c.obj('pycdlib.pycdlib.PyCdlib', _initialized=True, eltorito_boot_catalog=cat, logical_block_size=2048, isohybrid_mbr=None,
-                 _needs_reshuffle=False, _always_consistent=False)
+                 _needs_reshuffle=False, _always_consistent=False, pvds=[], joliet_vd=None, enhanced_vd=None, udf_root=None)
 
 
 @contract
@@ -292,7 +292,8 @@ class AddIsoHybrid(Base):
                                  s.ehead == a.heads - 1, s.ptype == a.part_type, s.part_offset == a.part_offset,
                                  s.part_entry == a.part_entry, s.mbr_id == a.mbr_id, s.rba == 0,
                                  s.geometry_heads == a.heads, s.geometry_sectors == a.sectors),
-                'initialized': Eq(s._initialized, True)}
+                'initialized': Eq(s._initialized, True),
+                'layout-metadata-marked-stale': Eq(a.self._needs_reshuffle, True)}
 
 
 @contract
